@@ -300,6 +300,47 @@ FORM_TEMPLATES = [
     ("unused_variable", ["def in{k}():", "    return [0 for q{k} in range(2)]"], "in{k}()"),
 ]
 FIX_TEMPLATES += NESTED_TEMPLATES + REPORTED_TEMPLATES + FORM_TEMPLATES
+
+
+# % templates with every specifier feature x every operand shape: whatever use_fstrings proposes for them
+# must evaluate to the same string (the oracle executes the function before and after the fix)
+def _esc(t):
+    return t.replace("{", "{{").replace("}", "}}")
+
+
+PCT_PRELUDE = ["o{k} = type('O', (), {{'v': x, 'w': y, 'd': {{'k': x, 'j': y}}}})()", "p{k} = {{'k': x, 'j': y}}"]
+PCT_ONE = ["v %s", "%s", "%d|", "%r!", "%5s|", "%-5s|", "%05d", "%+d", "%#x", "%.2f", "%.0s|", "%ld", "100%% %s", "%c", "%5.1f", "% d", "%i", "%a"]
+PCT_ONE_OPERANDS = ["x", "o{k}.v", "str(x)", "int(x)", "(x,)", "(o{k}.v,)", "p{k}['k']", "-x", "x + 1"]
+PCT_TWO = ["%s-%s", "%s %% %d", "%r and %s", "%-3s|%3s", "%s%s"]
+PCT_TWO_OPERANDS = ["(x, y)", "(o{k}.v, o{k}.w)", "(str(x), y)", "(x, x)", "(x, p{k}['j'])"]
+PCT_STAR = [("%*d", "(5, x)"), ("%-*d|", "(4, x)"), ("%.*f", "(1, x)")]
+PCT_MAP = ["%(k)s", "Hello %(k)s!", "%(k)s and %(j)s", "%(k)5s|", "%(k)s%%", "%(k)d", "%(k)r %(k)s", "%(k)-4s|"]
+PCT_MAP_OPERANDS = ["p{k}", "o{k}.d", "{{'k': x, 'j': y}}", "dict(k=x, j=y)", "dict(p{k})"]
+
+
+def percent_templates():
+    out = []
+    for t in PCT_ONE:
+        for op in PCT_ONE_OPERANDS:
+            out.append(("use_fstrings", PCT_PRELUDE + ["s{k} = " + _esc(repr(t)) + " % " + op], "s{k}"))
+    for t in PCT_TWO:
+        for op in PCT_TWO_OPERANDS:
+            out.append(("use_fstrings", PCT_PRELUDE + ["s{k} = " + _esc(repr(t)) + " % " + op], "s{k}"))
+    for t, op in PCT_STAR:
+        out.append(("use_fstrings", PCT_PRELUDE + ["s{k} = " + _esc(repr(t)) + " % " + op], "s{k}"))
+    for t in PCT_MAP:
+        for op in PCT_MAP_OPERANDS:
+            out.append(("use_fstrings", PCT_PRELUDE + ["s{k} = " + _esc(repr(t)) + " % " + op], "s{k}"))
+    return out
+
+
+PCT_TEMPLATES = percent_templates()
+# two more shapes reported on the unchanged tree
+REPORTED_TEMPLATES_2 = [
+    ("unused_variable", ["y{k} = (z{k} := 5)"], "y{k}"),
+    ("unused_variable", ["print(w{k} := x)"], "x"),
+    ("missing_f", ["match str(x):", "    case '{{x}}':", "        r{k} = 1", "    case _:", "        r{k} = 0"], "r{k}"),
+]
 # the replacement attached to unused_ignore reports (remove the comment line / strip the comment)
 FIX_TEMPLATES += [
     ("unused_ignore", ["# static analysis: ignore[bad_unpack]", "print(x)"], "x"),
@@ -531,6 +572,14 @@ def reported_shape_finding(code, text, ap, first_diag, problems):
     if any(n >= 2 for n in by_line.values()):
         return "C16-shared-physical-line"  # `if c: stmt`, `a; b`: another statement starts on a line of the replaced one
     line, col = (first_diag[1], first_diag[2]) if first_diag else (None, None)
+    if code == "unused_variable":
+        for n in ast.walk(tree):
+            if isinstance(n, ast.NamedExpr) and n.target.lineno == line and n.target.col_offset == col:
+                return "C16-unused-walrus-deletes-statement"
+    if code == "missing_f":
+        for n in ast.walk(tree):
+            if isinstance(n, ast.MatchValue) and n.value.lineno == line and n.value.col_offset == col:
+                return "C16-missing-f-in-match-pattern"
     if code == "use_fstrings":
         for n in ast.walk(tree):
             if isinstance(n, ast.BinOp) and isinstance(n.op, ast.Mod) and n.lineno == line and n.col_offset == col and isinstance(n.left, ast.Constant) and isinstance(n.left.value, str):
@@ -661,8 +710,14 @@ def run(tier: str, replay: str | None = None):
         for i in range(3 if tier == "quick" else 12):
             k = rng.randrange(1000)
             iter_cases.append((f"import os\ndef f{k}():\n    print(undef_{k})  {IGNORE}[bad_unpack]\n    return os.sep\n", UNUSED_ON_CFG))
-        for i, t in enumerate(FIX_TEMPLATES):
+        for i, t in enumerate(FIX_TEMPLATES + REPORTED_TEMPLATES_2):
             fix_cases.append(gen_fix_program(rng, i, forced=t))
+        if tier == "thorough":
+            pct = PCT_TEMPLATES
+        else:  # quick: the mapping templates with a name / attribute operand always, plus a sample of everything
+            pct = [t for t in PCT_TEMPLATES if "%(" in t[1][-1] and (t[1][-1].endswith("% p{k}") or t[1][-1].endswith("% o{k}.d"))] + rng.sample(PCT_TEMPLATES, 30)
+        for i, t in enumerate(pct):
+            fix_cases.append(gen_fix_program(rng, 3000 + i, forced=t))
         for i in range(160 if tier == "quick" else 1100):
             fix_cases.append(gen_fix_program(rng, 100 + i))
 
